@@ -16,6 +16,7 @@ import (
 	"net"
 	"strings"
 	"sync"
+	"sync/atomic"
 	"testing"
 	"time"
 
@@ -233,7 +234,9 @@ func c14Input(cs c14Case) (chunks [][]byte, starts []int, total int) {
 
 var c14ErrReset = errors.New("read: connection reset by peer")
 
-const c14Wait = 20 * time.Second
+const c14Wait = 10 * time.Second
+
+var c14Abort atomic.Bool
 
 func c14Run(r *vrt.R, cs c14Case) {
 	chunks, starts, _ := c14Input(cs)
@@ -254,7 +257,12 @@ func c14Run(r *vrt.R, cs c14Case) {
 		case <-ch:
 			return true
 		case <-time.After(c14Wait):
-			viol("harness-wait-expired:"+what, "did not happen within the grace period: "+what)
+			// a state the server must reach was not reached: report it and stop the enumeration (every further case
+			// would wait as long)
+			viol("server-never-reached:"+strings.ReplaceAll(what, " ", "-"), "did not happen within the grace period: "+what)
+			if c14Abort.CompareAndSwap(false, true) {
+				r.NotExhaustive("enumeration stopped after the server did not reach '" + what + "' in one case")
+			}
 			return false
 		}
 	}
@@ -307,6 +315,9 @@ func c14Run(r *vrt.R, cs c14Case) {
 			select {
 			case <-c.termCh:
 			case <-time.After(c14Wait):
+				if c14Abort.CompareAndSwap(false, true) {
+					r.NotExhaustive("enumeration stopped after a connection got no terminal ConnState callback in one case")
+				}
 			}
 		}
 		c.mu.Lock()
@@ -500,6 +511,9 @@ func TestVerif_C14(t *testing.T) {
 	r.Set("histories", len(hist))
 	// shortest histories first and sequentially for the first few, so that the artefact kept per class is a small one
 	run := func(cs c14Case) {
+		if c14Abort.Load() {
+			return
+		}
 		c14Run(r, cs)
 		if len(cs.Segs) > 0 {
 			r.NontrivialHash(c14Hash(cs))
